@@ -115,6 +115,9 @@ def build_impl(flavor='asan'):
         # prune older builds of this flavor (keep the 3 most recent)
         olds = sorted(glob.glob(os.path.join(CACHE, 'impl-%s-*' % flavor)), key=lambda p: os.path.getmtime(os.path.join(p, 'OK')) if os.path.exists(os.path.join(p, 'OK')) else 0)
         for o in olds[:-3]:
+            # never a build some concurrently running check may still be using (its OK stamp is refreshed on every use)
+            ok = os.path.join(o, 'OK')
+            if os.path.exists(ok) and time.time() - os.path.getmtime(ok) < 2700: continue
             shutil.rmtree(o, ignore_errors=True)
         log('built impl (%s) in %.1fs' % (flavor, time.time() - t0))
         return d
